@@ -133,6 +133,9 @@ class RepackMachine(Machine):
         for e in self.E.of(node):
             n = e[0]
             if n == 'H_WRITE' and e[1][0] == 'handle' and self._tmp(e[1][1]):
+                if pending is not None:
+                    viol.append(Violation(self.rule, node, st, 'the temporary pack is still being written while a re-pointing of index rows is already staged in the session (UPDATE before the copy '
+                                          'finished): if the copy fails later the uncommitted rows stay in the session and the next commit on this handle publishes rows that designate the temporary pack'))
                 tmp, tmpD = 'buffered', 'volatile'
                 self.seen_effects.add('write-tmp')
             elif n in ('H_FLUSH', 'H_CLOSE') and e[1][0] == 'handle' and self._tmp(e[1][1]) and 'a' in (e[1][2] or ''):
